@@ -183,7 +183,7 @@ func Gen(caseID, tier string) (json.RawMessage, error) {
 			rq.Mech = r.Pick("apreq", "apreq", "apreq", "apreq", "aprep", "krberror")
 			rq.Spec.Client = r.Pick("alice", "bob", "carol/admin")
 			rq.Spec.CRealm = r.Pick("", "", "OTHER.TEST") // "" = the service's realm
-			rq.Spec.Addrs = r.Pick("", "", "match", "other", "both")
+			rq.Spec.Addrs = r.Pick("", "", "", "match", "other", "both", "nb-other", "nb-match", "nb-only", "match-bytes-as-type3")
 			rq.Spec.StartTime = !r.Chance(1, 4)
 			rq.Spec.Subkey = r.Chance(1, 3)
 			if r.Chance(1, 4) {
